@@ -40,6 +40,7 @@ type verifKernel struct {
 	nextWd     int32
 	fd         int
 	initFail   bool
+	initFlags  int
 	closed     bool
 	closedCh   chan struct{}
 	initCalls  int
@@ -106,6 +107,7 @@ func verifInotifyInit1(flags int) (int, error) {
 	k := &verifKs[verifInitSeq%2] // successive instances
 	verifInitSeq++
 	k.initCalls++
+	k.initFlags = flags
 	if k.initFail {
 		return -1, unix.EMFILE
 	}
